@@ -477,3 +477,170 @@ def check_C20(chk):
     chk.assumptions += ["futures' unbounded channel is FIFO and wakes the registered waker on push and on close (assumed); executor scheduling is not exhibited by the model",
                         "the routing thread's receiver set delivers, per member, its messages in order followed by one closure (C06)"]
     finish_proof(chk, proof_ok, fails, bad)
+
+
+# ------------------------------------------------------------------ C10 (timed driver)
+def gen_timed(rng, n):
+    """sequence of operations with, for every receive, the model op (mode, state when it looks, what happens during the wait)"""
+    ops, model, expect, meta = [], [], [], []
+    q, alive = 0, True
+    for _ in range(n):
+        r = rng.random()
+        state = "QMsg" if q else ("QIdle" if alive else "QDead")
+        if r < 0.25 and alive:
+            L = rng.choice([10, 10, 3000, 9000])
+            ops.append("s%d" % L)
+            q += 1
+            continue
+        if r < 0.3 and alive:
+            ops.append("d")
+            alive = False
+            continue
+        if r < 0.55:
+            ops.append("t")
+            model.append("(MNonblocking, %s, None)" % state)
+            d = None
+        elif r < 0.8:
+            us = rng.choice([0, 300, 900, 1000, 1500, 5000, 20000, 60000, 3000000000000])
+            if state == "QIdle" and us > 100000:
+                us = 20000  # never wait for ever on an idle channel
+            ops.append("T%d" % us)
+            model.append("(MTimeout %d, %s, None)" % (us, state))
+            d = us
+        elif r < 0.88 and state != "QIdle":
+            ops.append("b")
+            model.append("(MBlocking, %s, None)" % state)
+            d = None
+        elif r < 0.94 and state == "QIdle":
+            ops.append("B25")
+            model.append("(MBlocking, QMsg, None)")      # by the time it returns a message is there
+            state = "QMsgLater"
+            d = None
+        elif state == "QIdle":
+            hang = rng.random() < 0.4
+            ops.append("%s2000000/20" % ("H" if hang else "W"))
+            model.append("(MTimeout 2000000, QIdle, Some %s)" % ("QDead" if hang else "QMsg"))
+            state = "HupLater" if hang else "QMsgLater"
+            d = None
+        else:
+            continue
+        if state == "QMsg":
+            expect.append("OMsg")
+            q -= 1
+        elif state == "QMsgLater":
+            expect.append("OMsg")
+        elif state == "HupLater":
+            expect.append("ODisconnected")
+            alive = False
+        elif state == "QDead":
+            expect.append("ODisconnected")
+        else:
+            expect.append("OEmpty")
+        meta.append({"op": ops[-1], "timeout_us": d, "state": state})
+    return ops, model, expect, meta
+
+
+def project_timed(calls):
+    out = []
+    for r in calls:
+        if r["call"] == "setfl":
+            out.append("CSetfl %s" % ("true" if r["nonblock"] else "false"))
+        elif r["call"] == "poll":
+            out.append("CPoll (%d) %s" % (r["timeout"], "true" if r["res"] > 0 else "false"))
+        elif r["call"] == "recvmsg":
+            pass
+    return out
+
+
+def check_C10(chk):
+    thorough = chk.tier == "thorough"
+    rng = random.Random(chk.seed)
+    proof_ok = C.proof_stage(chk, "C10")
+    bins = build_all(chk, ["default", "inprocess"])
+    if not all(bins.values()):
+        return
+    cases = []
+    for k in range(500 if thorough else 48):
+        ops, model, expect, meta = gen_timed(rng, rng.randint(4, 14))
+        if not model:
+            continue
+        cases.append({"id": k + 1, "ops": ops, "model": model, "expect": expect, "meta": meta})
+    chunks = [cases[i::12] for i in range(12)]
+
+    def run(chunk, fl="default"):
+        lines = ["id=%d ops=%s" % (c["id"], ",".join(c["ops"])) for c in chunk]
+        recs, trace, rc, err = C.run_harness(bins[fl], "timed", lines, env_extra={"VSHIM_SNDBUF": 4096} if fl == "default" else {}, shim=fl == "default", timeout=600)
+        by = {r["id"]: r for r in recs if r.get("kind") == "timed"}
+        return [(c, by.get(c["id"]), trace, fl) for c in chunk]
+    with concurrent.futures.ThreadPoolExecutor(max_workers=12) as ex:
+        items = [it for r in ex.map(run, chunks) for it in r]
+    items += run(cases[:12], "inprocess")
+    fails, todo = [], []
+    for k, (c, rec, trace, fl) in enumerate(items):
+        why = None
+        if rec is None:
+            why = "harness produced no record: a receive blocked for ever or the process died"
+        else:
+            for r, e, m in zip(rec["results"], c["expect"], c["meta"]):
+                if r["out"] != e:
+                    why = "operation %s returned %s where %s is required (channel state when it looked: %s)" % (r["op"], r["out"], e, m["state"])
+                    break
+                if m["op"] == "t" and r["us"] > 200000:
+                    why = "try_recv took %d us" % r["us"]
+                    break
+                if m["timeout_us"] is not None and r["out"] == "OEmpty" and r["us"] + 50 < (m["timeout_us"] // 1000) * 1000:
+                    why = "try_recv_timeout(%d us) reported 'empty' after only %d us" % (m["timeout_us"], r["us"])
+                    break
+                if m["op"][0] in "WH" and r["us"] > 1000000:
+                    why = "timed receive did not return early when the %s during the wait (%d us)" % ("sender went away" if m["op"][0] == "H" else "message arrived", r["us"])
+                    break
+                if m["op"][0] == "B" and r["us"] < 15000:
+                    why = "a blocking recv issued after non-blocking/timed receives returned after %d us without waiting for the message" % r["us"]
+                    break
+            if why is None and len(rec["results"]) != len(c["expect"]):
+                why = "%d of %d receive operations completed" % (len(rec["results"]), len(c["expect"]))
+        if why:
+            fails.append((c, rec, fl, why))
+            continue
+        if fl == "default" and trace:
+            seg = C.ops_between(trace, "timed %d" % c["id"], "endtimed %d" % c["id"]) or []
+            # the receiver's own socket: the descriptor of the first flag/poll call, or of the first recvmsg
+            main_fd = next((r["fd"] for r in seg if r["call"] in ("setfl", "poll", "recvmsg")), None)
+            calls = []
+            for r in seg:
+                if r.get("fd") != main_fd:
+                    continue
+                if r["call"] == "setfl":
+                    calls.append("CSetfl %s" % ("true" if r["nonblock"] else "false"))
+                elif r["call"] == "poll":
+                    calls.append("CPoll (%d) %s" % (r["timeout"], "true" if r["res"] > 0 else "false"))
+                elif r["call"] == "recvmsg":
+                    calls.append("CRecvmsg %s" % ("true" if calls and calls[-1] == "CSetfl true" else "false"))
+            todo.append((k, "check_timed [%s] [%s] [%s]" % ("; ".join(c["model"]), "; ".join(x["out"] for x in rec["results"]), "; ".join(calls))))
+    for c, rec, fl, why in fails[:8]:
+        chk.failing_input(why, {"build": fl, "sequence": ",".join(c["ops"]), "observed": rec and rec["results"]}, key="%s:%s" % (fl, ",".join(c["ops"])))
+    header = "From Coq Require Import ZArith List Bool.\nFrom IPC Require Import Timed TimedCheck.\nImport ListNotations.\nOpen Scope Z_scope.\n"
+    res, errors = C.coq_eval_sharded(header, todo, lambda p: "Eval vm_compute in (%d, %s)." % p, "c10", shard=40)
+    bad = [items[i] for i, _ in todo if res.get(i) != "true"]
+    cov = chk.coverage
+    cov["evaluations"] = len(items)
+    cov["traces_validated_against_impl"] = len(todo)
+    cov["distinct_nontrivial"] = len({",".join(c["ops"]) for c, r, t, f in items if any(o[0] in "TBWH" for o in c["ops"])})
+    cov["correspondence_mismatches"] = len(bad)
+    cov["rule"] = ("timed driver: sequences of 4..14 operations mixing recv / try_recv / try_recv_timeout(d) with d in {0, 300 us, 900 us, 1 ms, 1.5 ms, 5 ms, 20 ms, 60 ms, "
+                   "> i32::MAX ms (only with something to return)} against a sender that sends (small and multi-packet) or drops before the call, or - from another thread - "
+                   "20-25 ms into a blocking or timed wait; outcomes against the state table, elapsed time (at least floor(d) ms before 'empty', early return on arrival / "
+                   "hang-up, a blocking recv after an 'empty' really waits); on the OS transport the F_SETFL pairing and the poll timeout argument of every call are "
+                   "compared with Timed.run; in-process build: outcomes and timing only; non-trivial = sequences with a timed or blocking receive")
+    for c, rec, t, fl in items[:2]:
+        chk.sample({"sequence": ",".join(c["ops"]), "results": rec and rec["results"][:8]})
+    if errors:
+        chk.unproved("model evaluation (coqc on generated cases) failed", errors[0][-1500:])
+    if bad and not fails:
+        c, rec, t, fl = bad[0]
+        chk.unproved("correspondence TimedCheck.check_timed: flag / poll / recvmsg pattern differs from Timed.run on %d of %d sequences" % (len(bad), len(todo)),
+                     {"sequence": ",".join(c["ops"]), "model_ops": c["model"], "term": [t2 for k2, t2 in todo if items[k2][0] is c][:1]})
+    chk.assumptions += ["elapsed wall-clock time is runtime behaviour the model cannot exhibit: the theorem fixes the poll argument (floor of the duration in ms, -1 if it does not fit), "
+                        "the driver measures the elapsed time as a plausibility oracle ('at least the requested time to millisecond granularity' is read as floor(d / 1 ms))",
+                        "poll(2) semantics (returns early on POLLIN / hang-up) are kernel behaviour"]
+    finish_proof(chk, proof_ok, fails, bad)
